@@ -154,7 +154,7 @@ def mutants():
             if os.path.exists(mp) and os.path.exists(pp):
                 meta = json.load(open(mp))
                 out.append({"id": "seeded-" + name, "prop": meta["property"], "kind": "seeded", "patch": pp,
-                            "what": meta.get("summary", "")})
+                            "what": meta.get("summary", ""), "base_commit": meta.get("base_commit")})
     return out
 
 
@@ -177,6 +177,16 @@ def main():
                 err = apply_patch(d, diff, reverse=True)
             else:
                 err = apply_patch(d, open(m["patch"]).read())
+                if err and m.get("base_commit"):
+                    # the tree moved on (a later fix rewrote the lines the patch touches): fall back to
+                    # the commit the change was written against
+                    shutil.rmtree(d, ignore_errors=True)
+                    d = tempfile.mkdtemp(prefix="pysm-mut-")
+                    ar = subprocess.run(["git", "-C", REPO, "archive", m["base_commit"], "statemachine"],
+                                        capture_output=True)
+                    subprocess.run(["tar", "-x", "-C", d], input=ar.stdout)
+                    err = apply_patch(d, open(m["patch"]).read())
+                    m["what"] += " [applied to its base commit " + m["base_commit"] + "]"
             if err:
                 print(f"sensitivity {m['id']}: COULD NOT APPLY ({err})")
                 results.append(dict(id=m["id"], prop=m["prop"], status="not-applicable", error=err))
